@@ -104,11 +104,13 @@ pub struct RefCell {
     pub link: Option<String>,
 }
 
-/// Explicit setting of a row (height) or column (width): size as f64 bits + hidden flag.
+/// Explicit setting of a row (height) or column (width): size as f64 bits + hidden flag + the style of the dimension.
 #[derive(Clone, Copy, Debug, PartialEq, Eq, PartialOrd, Ord, Hash)]
 pub struct DimSet {
     pub size_bits: u64,
     pub hidden: bool,
+    /// index of the dimension's own style in the harness's style table (0 = none, 255 = a style outside the table)
+    pub style: u8,
 }
 
 #[derive(Clone, Debug, PartialEq, Eq, Default)]
